@@ -448,6 +448,13 @@ func (e *Env) term(v ssa.Value) lin.Term {
 				e.addRange(name, x.Type())
 				return lin.Var(name)
 			}
+			// otherwise: equal to an earlier dominating load of the same address when no store
+			// to that address and no call can execute in between
+			if _, isFA := x.X.(*ssa.FieldAddr); isFA {
+				if rep := e.p.earlierLoad(x); rep != nil {
+					return e.Term(rep)
+				}
+			}
 		}
 		if x.Op == token.SUB {
 			cand := e.Term(x.X).Scale(-1)
@@ -1050,3 +1057,58 @@ func (e *Env) AddCond(c ssa.Value, taken bool) { e.condFacts(c, taken, "guard") 
 
 // LenOf returns the term for len(v).
 func (e *Env) LenOf(v ssa.Value) lin.Term { return e.lenTerm(v) }
+
+// earlierLoad finds a load of the same address that dominates ld such that no
+// store to that address key and no call lies on any path between them.
+func (p *Prover) earlierLoad(ld *ssa.UnOp) *ssa.UnOp {
+	fn := ld.Parent()
+	key := ssax.AddrKey(ld.X)
+	var best *ssa.UnOp
+	for _, b := range fn.Blocks {
+		for _, in := range b.Instrs {
+			u, ok := in.(*ssa.UnOp)
+			if !ok || u == ld || u.Op != token.MUL || ssax.AddrKey(u.X) != key {
+				continue
+			}
+			if !ssax.Dominates(u, ld) {
+				continue
+			}
+			// a killer reachable from u (without passing ld) that can reach ld
+			killed := false
+			isKiller := func(x ssa.Instruction) bool {
+				if st, ok := x.(*ssa.Store); ok && ssax.AddrKey(st.Addr) == key {
+					return true
+				}
+				if _, ok := x.(*ssa.Call); ok {
+					c, _ := ssax.AsCall(x)
+					if !strings.HasPrefix(c.FullName(), "builtin.") {
+						return true
+					}
+				}
+				return false
+			}
+			isLd := func(x ssa.Instruction) bool { return x == ssa.Instruction(ld) }
+			uu := u
+			isLdOrU := func(x ssa.Instruction) bool { return x == ssa.Instruction(ld) || x == ssa.Instruction(uu) }
+			isU := func(x ssa.Instruction) bool { return x == ssa.Instruction(uu) }
+			// search paths u → killer avoiding ld, then killer → ld
+			for _, b2 := range fn.Blocks {
+				for _, k := range b2.Instrs {
+					if !isKiller(k) {
+						continue
+					}
+					kk := k
+					// paths that re-execute u re-load the value: only same-iteration paths count
+					if ssax.PathFrom(fn, u, func(x ssa.Instruction) bool { return x == kk }, isLdOrU) != nil &&
+						ssax.PathFrom(fn, kk, isLd, isU) != nil {
+						killed = true
+					}
+				}
+			}
+			if !killed && (best == nil || ssax.Dominates(u, best)) {
+				best = u
+			}
+		}
+	}
+	return best
+}
